@@ -72,6 +72,12 @@ def history(draw, classes=None, max_dim=3, max_ops=30, same_class_pairs=True):
         specB = draw(zoo.system_spec(classes=pool, min_dim=n, max_dim=n, allow_down=True))
     if specB["dim"] != n:
         specB = spec
+    b_from = None
+    if spec["cls"] in zoo.TRACTABLE and draw(st.integers(0, 3)) == 0:
+        # the second system object is a copy (shallow / deep / pickled) of the first with its public `metric`
+        # attribute re-assigned, as the metric adapters do
+        specB = dict(spec, metric=draw(zoo.metric_spec(n, ["scaled", "diag", "dense", "chol_lower", "eig"])))
+        b_from = draw(st.sampled_from(["copy", "deepcopy", "pickle"]))
     ops = []
     for _ in range(draw(st.integers(3, max_ops))):
         kind = draw(st.sampled_from(OPS))
@@ -97,7 +103,7 @@ def history(draw, classes=None, max_dim=3, max_ops=30, same_class_pairs=True):
             ops.append({"op": "call_all", "i": -1 if which == "source" else op["i"], "j": 0, "sys": sysk})
             continue
         ops.append(op)
-    return {"sys": spec, "sysB": specB, "int": draw(dyn.integrator_spec(spec["cls"], eps_lo=0.02, eps_hi=0.2)),
+    return {"sys": spec, "sysB": specB, "sysB_from": b_from, "int": draw(dyn.integrator_spec(spec["cls"], eps_lo=0.02, eps_hi=0.2)),
             "q": draw(vec(n, -1.2, 1.2)), "p": draw(vec(n, -1.5, 1.5)), "ops": ops}
 
 
@@ -200,3 +206,20 @@ def nocache_class(cls):
 
 def pickle_roundtrip(obj):
     return pickle.loads(pickle.dumps(obj))
+
+
+def build_systems(case, wrap=None):
+    """Systems A and B (and their reference models) of a history case."""
+    import copy
+
+    systems, models = {}, {}
+    systems["A"], models["A"] = zoo.build_system(case["sys"], wrap=(wrap("A") if wrap else None))
+    how = case.get("sysB_from")
+    if how is None:
+        systems["B"], models["B"] = zoo.build_system(case["sysB"], wrap=(wrap("B") if wrap else None))
+    else:
+        a = systems["A"]
+        b = {"copy": copy.copy, "deepcopy": copy.deepcopy, "pickle": pickle_roundtrip}[how](a)
+        b.metric = zoo.build_metric(case["sysB"]["metric"], case["sysB"]["dim"])
+        systems["B"], models["B"] = b, zoo.Model(case["sysB"])
+    return systems, models
